@@ -53,7 +53,7 @@ ASSUMPTIONS = [
     "per-core field accesses address core 0 of the chip and select the core "
     "through the address",
 ]
-FLOORS = {"cable_plugged_in_later": 20, "block_left_by_interrupt": 20, "discovered_connection_tries": 60, "discovery_from_a_named_chip": 10, "sibling_controller": 10, "signal_by_name": 30, "state_by_name": 20, "led_action": 10, "application_object_reused": 5, "method_call_checked": 500, "twin_compared": 400,
+FLOORS = {"command_from_before_close_hook": 20, "cable_plugged_in_later": 20, "block_left_by_interrupt": 20, "discovered_connection_tries": 60, "discovery_from_a_named_chip": 10, "sibling_controller": 10, "signal_by_name": 30, "state_by_name": 20, "led_action": 10, "application_object_reused": 5, "method_call_checked": 500, "twin_compared": 400,
           "missing_argument_rejected": 40, "stack_restored": 300,
           "exception_exit": 60, "application_stop_signal": 20,
           "connection_choice": 300, "bmp_call_checked": 80}
@@ -723,6 +723,7 @@ def run_nesting(case, ctx):
         pass
     model = [dict(mc.get_context_arguments())]     # stack of dicts
     pool = []       # (context object, its model dict): may be re-entered
+    hook_failures = []
 
     def merged():
         out = {}
@@ -761,6 +762,22 @@ def run_nesting(case, ctx):
                     d = dict(op[1]) if not op[2] else \
                         {"app_id": op[1].get("app_id", 66)}
                     pool.append((c, d))
+                    if not op[2] and len(pool) % 3 == 0 and \
+                            hasattr(c, "before_close"):
+                        # the block's owner registers clean-up work to be
+                        # done "before this context is exited": its commands
+                        # still go where the block says
+                        def hook():
+                            m_ = merged()
+                            if all(k in m_ for k in ("x", "y", "p")):
+                                mark = len(r.net.log)
+                                mc.read(0x60000000, 4)
+                                d_ = dests(sent(r, mark))
+                                ctx.hit("command_from_before_close_hook")
+                                if not d_ or d_[0][0] != (m_["x"], m_["y"],
+                                                          m_["p"]):
+                                    hook_failures.append((d_[:1], m_))
+                        c.before_close(hook)
                 # ops may say where to look (5-tuple enter / 4-tuple
                 # reenter); older forms look everywhere
                 if op[0] == "enter":
@@ -776,6 +793,11 @@ def run_nesting(case, ctx):
                         i = enter(i)
                 finally:
                     del model[depth_before:]
+                check(not hook_failures, "wrong-destination",
+                      "a command issued from a before_close function of the "
+                      "block went to %r; in force: %r" %
+                      (hook_failures[0] if hook_failures else (None, None)),
+                      ops=case["ops"])
                 if p_out:
                     probe()
             elif op[0] == "exit":
